@@ -7,6 +7,7 @@ import (
 	"go/constant"
 	"go/token"
 	"go/types"
+	"sort"
 
 	"golang.org/x/tools/go/ssa"
 )
@@ -595,6 +596,9 @@ func runC12(c *Ctx) {
 			c.ok("R-LEAN-AGREE", "slice.LISFunc:sortedness shortcut", lis.Pos(), "no non-strict sortedness shortcut in the strict variant")
 		}
 	}
+	// results are new slices: a subsequence function that hands back one of its arguments has taken a
+	// shortcut around the computation (and aliases the caller's storage)
+	ruleResultNotInput(c, "R-INPUT-IMMUTABLE", []string{"LCSFunc", "LISFunc", "LNDSFunc"})
 	// LCS -> LCSFunc(as, bs, ==): the comparable-typed wrapper hands its two inputs on as they are
 	if lcs, lcsf := P.Func("slice", "", "LCS"), P.Func("slice", "", "LCSFunc"); lcs != nil && lcsf != nil && len(lcs.Params) == 2 {
 		okD := false
@@ -642,4 +646,75 @@ func isYieldLikeCmp(t types.Type) bool {
 	}
 	b, ok := sig.Results().At(0).Type().Underlying().(*types.Basic)
 	return ok && b.Info()&types.IsInteger != 0
+}
+
+// isParamValue: v is the parameter p, or a read of the local cell p was spilled
+// to (a parameter captured by a closure lives in a cell that nothing else writes).
+func isParamValue(v ssa.Value, p *ssa.Parameter) bool {
+	if v == ssa.Value(p) {
+		return true
+	}
+	addr, ok := loadAddr(v)
+	if !ok {
+		return false
+	}
+	al, ok := addr.(*ssa.Alloc)
+	if !ok {
+		return false
+	}
+	n := 0
+	for _, r := range referrersOf(al) {
+		if st, ok := r.(*ssa.Store); ok && st.Addr == ssa.Value(al) {
+			if st.Val != ssa.Value(p) {
+				return false
+			}
+			n++
+		}
+	}
+	return n > 0
+}
+
+// ruleResultNotInput: a subsequence function that hands back (a slice of) one of
+// its arguments — other than an argument known to be empty — has taken a shortcut
+// around the computation and aliases the caller's storage.
+func ruleResultNotInput(c *Ctx, rule string, names []string) {
+	P := c.P
+	for _, n := range names {
+		fn := P.Func("slice", "", n)
+		if fn == nil {
+			continue
+		}
+		oc := newOrig(fn)
+		var ps []string
+		var at token.Pos
+		allInstrs(fn, func(in ssa.Instruction) {
+			ret, ok := in.(*ssa.Return)
+			if !ok || len(ret.Results) == 0 {
+				return
+			}
+			o := oc.of(ret.Results[0])
+			for pi := range o.Params {
+				if pi >= len(fn.Params) {
+					continue
+				}
+				// handing back an input that is known to be empty is handing back nothing
+				empty := false
+				for _, cm := range cmpsAt(ret.Block()) {
+					if ln, ok := isBuiltinCall(cm.X, "len"); ok && isParamValue(ln.Call.Args[0], fn.Params[pi]) && isConstInt(cm.Y, 0) && (cm.Op == token.EQL || cm.Op == token.LEQ) {
+						empty = true
+					}
+				}
+				if !empty {
+					ps = append(ps, fn.Params[pi].Name())
+					at = ret.Pos()
+				}
+			}
+		})
+		sort.Strings(ps)
+		pos := fn.Pos()
+		if at != token.NoPos {
+			pos = at
+		}
+		c.judge(len(ps) == 0, rule, "slice."+n+":result is not an input", pos, "a non-empty result never aliases a parameter", fmt.Sprintf("the function can return (a slice of) its own argument %v: a shortcut that answers with an input skips the computation for inputs it misjudges, and the result shares storage with the caller's slice", ps))
+	}
 }
